@@ -196,6 +196,10 @@ def okC (c : Content) : Bool :=
   c.surs.isEmpty && c.data.isEmpty && noIA c.vars && noIA c.pars && numCoefs c && wellNamed c
     && allVarsHaveEq c && stoichOnVars c && !c.vars.isEmpty
 
+/-- the requested free parameters are distinct plain parameters and one value is supplied for each -/
+def freeOkB (c : Content) (free : List Name) (ps : List Rat) : Bool :=
+  nodupB free && free.all (fun k => (omKeys c.pars).contains k) && ps.length == free.length
+
 def Rhs.reads : Rhs → List Name
   | .const _ => []
   | .app f => f.args
